@@ -43,6 +43,7 @@ def same(got, want):
 
 class C09(PropBase):
     id = "C09"
+    corr_fields = ['gs', 'track', 'vrate', 'vrs', 'trs']
     lean_modules = ["SqModel.Props.C09", "SqModel.Proofs.Bridge", "SqModel.Proofs.BridgePlane"]
     extractors = ["trans"]
     rule = ("TC19 subtype 1/2 squitters over a stratified grid of east/north sign+magnitude fields (all boundaries 0,1,2,1022,1023, "
